@@ -747,6 +747,147 @@ def traces(v, tier, seed):
             v.notes["known_finding_not_observed_" + key] = "no execution showed it on this tree (repaired?)"
 
 
+# ---------------------------------------------------------------------------------------------
+# Random-access channels (spec/IoRandom.tla): model + mutants, then TLC-emitted vectors replayed
+# on real DISPATCH_IO_RANDOM channels over temp files by harness/drv_iorand.c (spec -> code).
+import zlib
+RAND_MUTANTS = ["nobase", "rr_shared_total"]
+_cells = {}
+
+
+def cell_bytes(c, unit):
+    """Must match cell_byte() of harness/drv_iorand.c."""
+    k = (c, unit)
+    if k not in _cells:
+        _cells[k] = bytes(unit) if c == 0 else bytes(((c * 131 + j * 7 + (j >> 8) * 13 + 1) & 0xff) for j in range(unit))
+    return _cells[k]
+
+
+def iorand_vectors(seed, num, depth=60):
+    r = tlc_must_pass("IoRandom_emit", "IoRandom.tla", "IoRandom_emit.cfg", workers=4, simulate=num, depth=depth,
+                      seed=seed, timeout=600, metaname="IoRandom_emit")
+    if r.violated:
+        return [], r
+    out = []
+    for ln in r.out.splitlines():
+        ln = ln.strip()
+        if ln.startswith('"<<7777,'):
+            out.append(json.loads(ln.strip('"').replace("<<", "[").replace(">>", "]")))
+    return out, r
+
+
+def iorand_judge(vecs, params, outpath):
+    """vecs[i] = [7777, flen, base, hist]; hist[p] = [ops, got, file0, file]; params[i] = (unit, pages).
+    Returns list of (vector index, text)."""
+    obs = {}
+    for ln in open(outpath):
+        f = ln.split()
+        if f[0] == "R":
+            obs[("R", int(f[1]), int(f[2]), int(f[3]))] = [int(x) for x in f[4:]]
+        elif f[0] == "F":
+            obs[("F", int(f[1]), int(f[2]))] = [int(x) for x in f[3:]]
+        elif f[0] == "C":
+            obs[("C", int(f[1]))] = [int(x) for x in f[2:]]
+    bad = []
+    for vi, (vec, (unit, pages)) in enumerate(zip(vecs, params)):
+        _, flen, base, hist = vec
+        for p, (ops, got, file0, filep) in enumerate(hist, 1):
+            for i, (k, off, ln_) in enumerate(ops, 1):
+                o = obs.get(("R", vi, p, i))
+                what = "vector %d (unit %d, chunk pages %d, file %d cells, base %d) phase %d op %d %s(off %d, len %s)" % (
+                    vi, unit, pages, flen, base, p, i, "write" if k else "read", off, "SIZE_MAX" if ln_ == 99 else ln_)
+                if o is None:
+                    bad.append((vi, what + ": no completion recorded")); continue
+                calls, dones, after, err, total, crc = o
+                if dones != 1 or after != 0:
+                    bad.append((vi, what + ": completed %d times, %d handler calls after done" % (dones, after)))
+                if err != 0:
+                    bad.append((vi, what + ": error %d, the spec completes it without error" % err))
+                if k == 0:
+                    exp = b"".join(cell_bytes(c, unit) for c in got[i - 1])
+                    if total != len(exp) or crc != (zlib.crc32(exp) & 0xffffffff):
+                        bad.append((vi, what + ": delivered %d bytes crc %08x, the spec's slice %s is %d bytes crc %08x" % (
+                            total, crc, got[i - 1], len(exp), zlib.crc32(exp) & 0xffffffff)))
+                elif total != 0:
+                    bad.append((vi, what + ": completed without error but reports %d unwritten bytes" % total))
+            o = obs.get(("F", vi, p))
+            exp = b"".join(cell_bytes(c, unit) for c in filep)
+            if o is None or o[0] != len(exp) or o[1] != (zlib.crc32(exp) & 0xffffffff):
+                bad.append((vi, "vector %d (unit %d, chunk pages %d, base %d) phase %d ops %s: file afterwards %s, the spec has %s = %d bytes crc %08x" % (
+                    vi, unit, pages, base, p, ops, o, filep, len(exp), zlib.crc32(exp) & 0xffffffff)))
+        o = obs.get(("C", vi))
+        if o is None or o[0] != 1 or o[1] != 0:
+            bad.append((vi, "vector %d: cleanup handler %s (want once, error 0)" % (vi, o)))
+    return bad
+
+
+def iorand_run(drv, vecs, params, tag):
+    d = rundir(PROP)
+    vp = os.path.join(d, "iorand_%s.vec" % tag)
+    op = os.path.join(d, "iorand_%s.out" % tag)
+    with open(vp, "w") as f:
+        for vec, (unit, pages) in zip(vecs, params):
+            _, flen, base, hist = vec
+            f.write("%d %d %d %d %d" % (unit, pages, flen, base, len(hist)))
+            for ops, _g, _f0, _f in hist:
+                f.write(" %d" % len(ops))
+                for k, off, ln_ in ops:
+                    f.write(" %d %d %d" % (k, off, ln_))
+            f.write("\n")
+    tmp = os.path.join(d, "iorand_tmp_%s" % tag)
+    os.makedirs(tmp, exist_ok=True)
+    rc, out, err = sh([drv, vp, op, tmp], timeout=900)
+    shutil.rmtree(tmp, ignore_errors=True)
+    hang = None
+    if rc != 0:
+        if rc == 3 or "HANG" in err:
+            hang = "drv_iorand: an operation or the cleanup handler never completed (%s)" % err.strip()[-200:]
+        else:
+            raise Broken("drv_iorand rc=%s: %s" % (rc, err[-800:]))
+    bad = iorand_judge(vecs, params, op) if not hang else [(0, hang)]
+    return bad
+
+
+def random_access(v, tier, seed):
+    for cfgname in (["IoRandom_q"] if tier == "quick" else ["IoRandom_q", "IoRandom_t"]):
+        r = tlc_must_pass(cfgname, "IoRandom.tla", cfgname + ".cfg", timeout=900)
+        v.add_model(cfgname, r)
+        if r.violated:
+            v.violation("IoRandom.tla %s: %s violated (the specification itself)" % (cfgname, r.violated),
+                        save_replay(PROP, cfgname + ".out", r.out[-20000:]))
+            return
+    for mu in RAND_MUTANTS:
+        c = cfg_variant("IoRandom_q", "IoRandom_mut_" + mu, [('Mut = "none"', 'Mut = "%s"' % mu)])
+        r = tlc_must_pass("IoRandom mutant " + mu, "IoRandom.tla", c, timeout=300, metaname="IoRandom_mut_" + mu)
+        if not r.violated:
+            raise Broken("spec mutant %s of IoRandom.tla is not refuted: the laws are vacuous" % mu)
+    v.notes["iorandom_mutants_refuted"] = RAND_MUTANTS
+    num = 60 if tier == "quick" else 600          # per TLC worker (4)
+    vecs, r = iorand_vectors(seed, num)
+    if r.violated:
+        v.violation("IoRandom.tla (emission config): %s violated" % r.violated, save_replay(PROP, "IoRandom_emit.out", r.out[-20000:]))
+        return
+    if len(vecs) < 40:
+        raise Broken("TLC emitted only %d random-access vectors" % len(vecs))
+    rng = random.Random(seed * 31 + 5)
+    params = [(rng.choice([1, 1, 700, 4096, 5000]), rng.choice([1, 1, 2, 256])) for _ in vecs]
+    drv = build_driver("drv_iorand")
+    bad = iorand_run(drv, vecs, params, "main")
+    v.traces += len(vecs)
+    v.notes["random_access_vectors_replayed"] = len(vecs)
+    v.notes["random_access_operations"] = sum(len(h[0]) for vec in vecs for h in vec[3])
+    v.samples.append("random-access vector: file %d cells, base %d, phases %s" % (vecs[0][1], vecs[0][2], json.dumps(vecs[0][3])[:300]))
+    if bad:
+        vi = bad[0][0]
+        # confirm on the single vector (a rejection is reported only if it repeats)
+        again = iorand_run(drv, [vecs[vi]], [params[vi]], "again")
+        rp = save_replay(PROP, "random_access_%d.iorand" % seed, json.dumps({"vec": vecs[vi], "unit": params[vi][0], "pages": params[vi][1]}))
+        if again:
+            v.violation("random-access channel: " + again[0][1] + (" (+%d more)" % (len(bad) - 1) if len(bad) > 1 else ""), rp)
+        else:
+            v.violation("random-access channel (in a batch; alone the vector passed): " + bad[0][1], rp)
+
+
 def run(tier, seed):
     v = Verdict(PROP, tier, seed)
     try:
@@ -760,7 +901,7 @@ def run1(v, tier, seed):
         "queues and groups are abstract in Io.tla: serial queue = FIFO executor, suspension stops it, group notify fires at zero (C02, C06, C07)",
         "kernel object = byte sequence with short reads/writes, EAGAIN, EOF, hangup; TLC bounds: see models",
         "trace validation: system-call sizes chosen by look-ahead on the operation's next recorded delivery (argument in tools/props/C14.py)",
-        "stream channels only (DISPATCH_IO_RANDOM and the disk read-ahead engine are not modelled; stream channels on regular files are exercised and validated)",
+        "Io.tla: stream channels (stream channels on regular files are exercised and validated); DISPATCH_IO_RANDOM channels: IoRandom.tla (offsets relative to the position at creation, round-robin chunks of non-conflicting operations, holes, EOF) with TLC-emitted vectors replayed on real files; the disk engine's read-ahead advice is not modelled",
         "cleanup-after-handlers is judged for operations submitted before close/stop was called",
     ]
     t = threading.Thread(target=lambda: None)
@@ -774,6 +915,7 @@ def run1(v, tier, seed):
     t = threading.Thread(target=m)
     t.start()
     try:
+        random_access(v, tier, seed)
         traces(v, tier, seed)
     finally:
         t.join()
@@ -783,6 +925,11 @@ def run1(v, tier, seed):
 
 
 def replay(path, seed):
+    if path.endswith(".iorand"):
+        j = json.load(open(path))
+        bad = iorand_run(build_driver("drv_iorand"), [j["vec"]], [(j["unit"], j["pages"])], "replay")
+        print("\n".join(t for _, t in bad) or "accepted")
+        return 1 if bad else 0
     if path.endswith(".sched"):
         drv = build_driver("drv_io")
         d = rundir(PROP)
